@@ -104,13 +104,42 @@ def opActor : List String → Option (String × String × String)
     if k == "ext" || k == "int" then some (name, name, if c.startsWith "next" then "next" else c) else none
   | _ => none
 
+/-- two states the harness cannot tell apart later: equal up to the order of this step's output -/
+def sameUpToOutOrder (a b : Sys.State) : Bool :=
+  a.out.length == b.out.length && { a with out := [] } == { b with out := [] } &&
+  (a.outs.toArray.qsort (· < ·)) == (b.outs.toArray.qsort (· < ·))
+
+def addState (l : List Sys.State) (s : Sys.State) : List Sys.State :=
+  if l.any (sameUpToOutOrder s) then l else l ++ [s]
+
+/-- the moves the scheduler may make next: one per digit of `progress`, without repetitions -/
+def movesOf (s : Sys.State) : List Sys.State :=
+  (List.range 12).foldl (fun acc d => match progress d s with | some s' => addState acc s' | none => acc) []
+
+/-- every quiescent state some sequence of scheduler choices leads to (each is `settle v _ s` for the `v`
+    whose base-12 digits are those choices), found depth first with at most `cap` intermediate states;
+    the twelve fixed policies are always among them -/
+def settleSearch : Nat → List Sys.State → List Sys.State → List Sys.State → List Sys.State
+  | 0, _, _, done => done
+  | _, [], _, done => done
+  | fuel + 1, s :: work, seen, done =>
+    let succ := movesOf s
+    if succ.isEmpty then settleSearch fuel work seen (addState done s)
+    else
+      let new := succ.filter fun x => !seen.any (sameUpToOutOrder x)
+      settleSearch fuel (new ++ work) (seen ++ new) done
+
+def settleAll (s : Sys.State) : List Sys.State :=
+  let fixed := (List.range 12).foldl (fun acc d => addState acc (settle d 400 s)) []
+  (settleSearch 1500 [s] [s] []).foldl addState fixed
+
 /-- all states reachable by letting armed timers fire (each followed by settling), depth-bounded -/
-def timerClosure (wf : Nat) : Nat → List Sys.State → List Sys.State
+def timerClosure : Nat → List Sys.State → List Sys.State
   | 0, acc => acc
   | n + 1, acc =>
     let more := acc.foldl (fun out s =>
-      out ++ (s.timers.map fun t => settle wf 400 (applyOp s (.timer t)))) []
-    if more.isEmpty then acc else acc ++ timerClosure wf n more
+      (s.timers.flatMap fun t => settleAll (applyOp s (.timer t))).foldl addState out) []
+    if more.isEmpty then acc else acc ++ timerClosure n more
 
 /-- keep one representative per (observation-relevant) state: compare by a printed digest -/
 def digest (s : Sys.State) : String :=
@@ -144,15 +173,14 @@ def sysModel : NModel where
     | some op =>
       -- timers may fire before the op takes effect as well as after it
       let actor := opActor ws
-      let all := (List.range 6).foldl (fun acc v =>
-        let pre := timerClosure v 3 [{ o.s with out := [] }]
-        let mid := pre.map fun s =>
-          -- the calling process may have been killed by a timer-driven reset just before the call
-          match actor with
-          | some (pa, a, c) =>
-            if (procOf s pa).isNone then s.emit s!"{a}.{c}=aborted" else settle v 400 (applyOp s op)
-          | none => settle v 400 (applyOp s op)
-        acc ++ timerClosure v 3 mid) []
+      let pre := timerClosure 3 [{ o.s with out := [] }]
+      let mid := pre.flatMap fun s =>
+        -- the calling process may have been killed by a timer-driven reset just before the call
+        match actor with
+        | some (pa, a, c) =>
+          if (procOf s pa).isNone then [s.emit s!"{a}.{c}=aborted"] else settleAll (applyOp s op)
+        | none => settleAll (applyOp s op)
+      let all := timerClosure 3 (mid.foldl addState [])
       -- … or while the request was in flight: the server processed it, the client saw an abort
       let all := all ++ (match actor with
         | some (pa, a, c) => all.filterMap fun s =>
